@@ -17,7 +17,8 @@ RULE = ('(address) Address(...) with each of the 5 value parameters in {absent, 
         'Spec, C16_address_iff) on the integer-or-None subset; only ValueError may be raised. (params) each key in {absent, valid, boundary, '
         'invalid value, wrong type}: all pairs + random dictionaries, compared with a reference predicate written from the parameter '
         'documentation and with the extracted Coq Params.validate (C16_params_iff). (run) every accepted configuration is driven with '
-        'payloads and random traffic: no exception may escape process(), send() raises at most ValueError.')
+        'payloads and random traffic: no exception may escape process(), send() raises at most ValueError.'
+        ' (set_address) sequences of set_address() with fully defined, partial and non-address arguments on a live layer: accepted exactly for fully defined addresses, a refused one leaves the layer working on the last accepted address, no other exception escapes.')
 ASSUME = ['bool is not generated where an int is documented; unknown keys and non-int physical_id / functional_id are outside the quantifier; '
           'rate-limit products beyond 2^1023 are not generated']
 
